@@ -29,11 +29,13 @@ LEVEL_TEXT = ("Partial. Unbounded proof: for every byte string (and start positi
               "are read within (bytes + 1) levels, and the field and method lists of a class_data_item (the model of C05) end "
               "within (bytes left + 1) passes whatever counts the item announces; the map list of a DEX file as modelled "
               "(MapList.__init__ and MapItem.parse: the count and the items of the map, then per item its section from its own "
-              "offset - string, type, proto and field id tables, type lists, annotation set ref lists, annotation set items, "
-              "annotations directories) ends on EVERY byte string and offset, a map that is read has at most one item per "
+              "offset - string, type, proto and field id tables, string data items, code items with their try items and handler "
+              "lists, type lists, annotation set ref lists, annotation set items, annotations directories, in the load order "
+              "of C07) ends on EVERY byte string and offset, a map that is read has at most one item per "
               "twelve bytes, and the model is compared with the real MapList on generated and damaged maps. Not proved: "
-              "termination of the sections that are not modelled as part of that walk (method ids with their cross references, "
-              "class definitions, code items, string data and annotation items as sections) and of the zip layer; they are run on "
+              "termination of the sections that are not modelled as part of that walk (method ids and class definitions - fixed "
+              "records read with look-ups in the other tables -, and class data, annotation items, encoded arrays, debug info and "
+              "hidden API data as sections of the map: their readers have the theorems above) and of the zip layer; they are run on "
               "mutated, truncated and crafted inputs under a time limit that grows with the input size (reference "
               "resolution in resource tables is C29).")
 LEVEL_NOTE = ("Trusted: Coq kernel; coq/Misc/TermModel.v as a rendering of ARSCHeader.__init__, DebugInfoItem.__init__ and "
@@ -359,7 +361,7 @@ STREAMS = [
 # ---- the map list and its sections (coq/Dex/MapWalkModel.v) against the real MapList / MapItem.parse --------------------------------
 # method ids are left out: MethodIdItem resolves its prototype while it is read and fails with AttributeError / KeyError on an index
 # the other tables do not cover (no loop is involved; the model has no cross references)
-MAP_KINDS = [0x0001, 0x0002, 0x0003, 0x0004, 0x1001, 0x1002, 0x1003, 0x2006, 0x1000]
+MAP_KINDS = [0x0001, 0x0002, 0x0003, 0x0004, 0x1001, 0x1002, 0x1003, 0x2006, 0x1000, 0x2001, 0x2001, 0x2002, 0x2002, 0x0007, 0x0008]
 
 
 def gen_map(rng, tier, ctx):
@@ -388,8 +390,41 @@ def gen_map(rng, tier, ctx):
                 fixed = {1: 4, 2: 4, 3: 12, 4: 8}
                 if ty in fixed:
                     count = rng.randint(0, min(6, room // fixed[ty]))
-                elif ty == 0x1000:
+                elif ty in (0x1000, 7, 8):
                     count = 1
+                elif ty == 0x2002:                      # string data items: length, bytes, NUL
+                    at, count = off, 0
+                    for _ in range(rng.randint(0, 4)):
+                        text = bytes(rng.randrange(1, 256) for _ in range(rng.choice((0, 1, 5, 130, 300))))
+                        item = uleb(rng.choice((len(text), 0, 200, 70000))) + text + b"\0"
+                        if at + len(item) > len(body):
+                            break
+                        body[at:at + len(item)] = item
+                        at += len(item)
+                        count += 1
+                elif ty == 0x2001:                      # code items: header, code units, try items, handler lists
+                    at, count = off, 0
+                    for _ in range(rng.randint(0, 3)):
+                        at += -at % 4
+                        insns = rng.choice((0, 1, 2, 3, 7))
+                        tries = rng.choice((0, 0, 1, 2))
+                        item = struct.pack("<4H2I", rng.randrange(16), rng.randrange(4), rng.randrange(4), tries, rng.randrange(100), insns) + rb(rng, 2 * insns)
+                        if tries:
+                            if insns % 2:
+                                item += b"\0\0"
+                            item += b"".join(struct.pack("<I2H", rng.randrange(insns + 1), 1, rng.randrange(8)) for _ in range(tries))
+                            lists = rng.randint(1, 3)
+                            item += uleb(lists)
+                            for _ in range(lists):
+                                n = rng.choice((0, 1, 2, -1, -2))
+                                item += bytes([n & 0x7F]) + b"".join(uleb(rng.randrange(300)) + uleb(rng.randrange(300)) for _ in range(abs(n)))
+                                if n <= 0:
+                                    item += uleb(rng.randrange(300))
+                        if at + len(item) > len(body):
+                            break
+                        body[at:at + len(item)] = item
+                        at += len(item)
+                        count += 1
                 else:
                     k = {0x1001: 2, 0x1002: 4, 0x1003: 4}.get(ty)
                     at, count = off, 0
@@ -426,7 +461,9 @@ def gen_map(rng, tier, ctx):
         raw = bytes(body) + m
         if wild_map and rng.random() < 0.3:
             raw = raw[:rng.randrange(moff, len(raw) + 1)]
-        return (raw, moff if rng.random() < 0.9 else rng.randrange(0, len(raw) + 3))
+        # (the map is always read where it was written: bytes read as a map somewhere else name kinds whose readers look other
+        # tables up - KeyError in the code, outside the model; an offset behind the end is covered by the cut maps)
+        return (raw, moff if rng.random() < 0.9 else len(raw) + rng.randrange(0, 3))
     for _ in range(600 if tier == "thorough" else 120):
         cases.append(build(rng.randint(0, 6), rng.choice((0, 16, 64, 200)), rng.random() < 0.5))
     return cases
@@ -449,7 +486,7 @@ def impl_map(case):
         elif isinstance(it, list):
             n = len(it)
         else:
-            inner = [getattr(it, a) for a in ("type", "proto", "field_id_items", "method_id_items") if isinstance(getattr(it, a, None), list)]
+            inner = [getattr(it, a) for a in ("type", "proto", "field_id_items", "method_id_items", "code") if isinstance(getattr(it, a, None), list)]
             n = len(inner[0])
         out.append([int(mi.get_type()), mi.get_size(), mi.get_offset(), n])
     return out
